@@ -2,6 +2,7 @@ import Jap.Core.Heap
 import Jap.Lemmas.Heap
 import Jap.Lemmas.HeapOps
 import Jap.Core.HeapHist
+import Jap.Core.HeapProc
 import Jap.Lemmas.HeapHist
 import Jap.Lemmas.HeapSafe
 import Jap.Lemmas.HeapHeld
@@ -728,6 +729,67 @@ theorem C08_brackets_after_leaks :
 /-- what restoring a value recorded elsewhere does (seed C08-B: `chdir = path.cwd`): the variable is not what it was -/
 theorem C08_brackets_wrong_value_leaks :
     (withBracket .wrong "os.cwd" 7 (fun s => (.ok, s)) (fun _ => 5)).2 "os.cwd" ≠ 5 := by decide
+
+/-! ## process-level locations of a history: os.environ, sys.argv, the working directory -/
+
+def probes : List (String × String) := Jap.Gen.HeapSites.processProbes
+
+/-- the process-level locations: the bracketed variables plus the two the operations only read -/
+def procWatched : List String := watched ++ ["os.environ", "sys.argv"]
+
+/-- the live probes of the process state (Gen/HeapSites.processProbes): around one real call of every entry point —
+    15 successful ones (one of them loading a config file from another directory) and 10 that raise midway (inside
+    change_to_path_dir among them) — os.environ, sys.argv (object and content), the working directory and
+    argparse.Namespace are as before.  A call that cannot be probed is a broken tie. -/
+theorem tie_process_probes :
+    probes.length = 25 ∧ probes.all (fun r => r.2 == "unchanged") = true := by decide
+
+/-- with the regenerated tables, the process-level skeleton of every operation, for every place where it may raise,
+    touches the watched locations only through `finally` brackets and writes neither os.environ nor sys.argv -/
+theorem proc_disciplined_sites :
+    allProcSites.all (fun sites => Fault.all.all (fun f => (procOfSites rows probes sites f).disciplined procWatched)) = true := by decide
+
+theorem proc_disciplined (op : Op) (f : Fault) : (op.proc rows probes f).disciplined procWatched = true := by
+  have h := proc_disciplined_sites
+  simp only [List.all_eq_true] at h
+  exact h _ (Op.procSites_mem op) f (Fault.mem_all f)
+
+/-- C08_history_process_state: after a history of ANY length of the modelled operations — each of them completing or
+    raising before, inside or after its context managers, the caller catching the exception and going on — os.environ
+    and sys.argv are what they were and the working directory (like current_path_dir, argparse.Namespace and every
+    parser_context variable) is restored. -/
+theorem C08_history_process_state : ∀ (h : List (Op × Fault)) (s : Store), ∀ x ∈ procWatched, runProc rows probes h s x = s x
+  | [], _, _, _ => rfl
+  | (op, f) :: rest, s, x, hx => by
+    simp only [runProc]
+    rw [C08_history_process_state rest _ x hx]
+    exact Prog.run_restores procWatched (op.proc rows probes f) s (proc_disciplined op f) x hx
+
+/-- … and in particular -/
+theorem C08_history_environ_argv_cwd (h : List (Op × Fault)) (s : Store) :
+    runProc rows probes h s "os.environ" = s "os.environ" ∧ runProc rows probes h s "sys.argv" = s "sys.argv" ∧
+    runProc rows probes h s "os.cwd" = s "os.cwd" :=
+  ⟨C08_history_process_state h s _ (by decide), C08_history_process_state h s _ (by decide), C08_history_process_state h s _ (by decide)⟩
+
+/-- non-vacuity: a history in which operations do raise (before, inside, after) and work is done inside the brackets -/
+def procHist : List (Op × Fault) :=
+  [(.parseArgs 1 none, .none), (.parseText (.atom 0), .inside), (.save true 0, .after), (.getDefaults, .before),
+   (.dump 0, .inside), (.instantiate 0, .none)]
+
+example : procOutcomes rows probes procHist (fun _ => 3) = [.ok, .raised, .raised, .raised, .raised, .ok] := by decide
+example : runProc rows probes procHist (fun _ => 3) "work-done" = 1 ∧ runProc rows probes procHist (fun _ => 3) "os.cwd" = 3 := by decide
+
+/-- what the theorem rests on, negatively: were the reset of change_to_path_dir not in `finally` (a table row saying
+    "after"), a parse raising inside it would leave the process in the other directory -/
+def rowsCwdAfter : List (String × String × Reset) :=
+  rows.map (fun r => if r.1 == "change_to_path_dir" && r.2.1 == "os.cwd" then (r.1, r.2.1, Reset.after) else r)
+
+theorem C08_process_state_needs_finally :
+    runProc rowsCwdAfter probes [(.parseText (.atom 0), .inside)] (fun _ => 3) "os.cwd" = 7 := by decide
+
+/-- … and were a probe to see os.environ changed by parse_env, the skeleton would write it -/
+theorem C08_process_state_needs_probe :
+    runProc rows (("parse_env.env", "CHANGED:os.environ") :: probes) [(.parseText (.atom 0), .none)] (fun _ => 3) "os.environ" = 1 := by decide
 
 /-! ## regression: what sharing below tuples did (finding F11, repaired) -/
 
